@@ -368,7 +368,7 @@ PROPS['C14'] = dict(
 # ---------------------------------------------------------------------------
 # C17
 C17_TRAITS = ['DynSelector', 'DynMutator', 'DynRecombinator', 'DynOperator', 'DynChildMaker']
-C17_IMPLS = [['Best', 'Worst', 'Random', 'Tournament(2)', 'Tournament(5)'], ['WithRate(0.3)', 'WithOneOverLength', 'failing mutator'],
+C17_IMPLS = [['Best', 'Worst', 'Random', 'Tournament(2)', 'Tournament(5)', 'WeightedPair(Best:1, Tournament(5):1)', 'draw-then-fail selector'], ['WithRate(0.3)', 'WithOneOverLength', 'failing mutator'],
              ['UniformXo', 'TwoPointXo', 'failing recombinator'], ['AddWord', 'AddWord.then(AddWord)', 'failing operator', 'Mutate(WithRate(0.5))'],
              ['select+word', 'two parents', 'failing child maker']]
 C17_PTR = ['&', '&mut', 'RefMut', 'Box', 'Arc', 'Rc', 'Ref']
@@ -466,11 +466,12 @@ def make_stat_post(pid, obs_code=None, hist_of=None):
             for j in range(0, len(aux) - 2, 3):
                 law[aux[j]] = law.get(aux[j], 0) + Fraction(aux[j + 1], aux[j + 2])
             o = obs[i]
-            if not isinstance(o, list) or (o and not isinstance(o[0], list)):
+            pairs = hist_of(inputs[i], o) if hist_of else (o if isinstance(o, list) and all(isinstance(e, list) and len(e) == 2 for e in o) else None)
+            if not pairs:
                 verdicts[i] = [2, 'no histogram (panic/abort?)', o]
                 continue
             hist = {}
-            for oc, k in (hist_of(inputs[i], o) if hist_of else o):
+            for oc, k in pairs:
                 c = code_of(inputs[i], oc)
                 hist[c] = hist.get(c, 0) + k
             imp, flagged, worst = stat_decide(law, hist)
@@ -590,3 +591,68 @@ PROPS['C13'] = dict(_SEL_COMMON, post_batch=make_stat_post('C13', sel_obs_code),
     level_note='Trusted: Coq kernel; harness+driver; Bernoulli / choose_weighted as oracles.',
     technique='Coq induction over weighted trees in a distribution monad over Q (field arithmetic) + statistical delegation-frequency correspondence, exact build errors',
     design_ref='DESIGN.md §5 C13')
+
+# ---------------------------------------------------------------------------
+# C11 / C12: mutation, uniform crossover, random bitstrings / genes
+MUT_KINDS = {0: 'WithRate Vec<bool>', 1: 'WithRate Bitstring', 2: 'WithOneOverLength Vec<bool>', 3: 'WithOneOverLength Bitstring', 4: 'Umad Vector<i64>',
+             5: 'Umad Bitstring', 6: 'UniformXo', 7: 'Bitstring::random_with_probability', 8: 'Plushy GeneGenerator', 9: 'WithRate Vec<i64>', 10: 'Umad Plushy'}
+def mut_code(inp, child):
+    if inp[2][0] == 8:
+        return child[0]
+    c = 0
+    for x in reversed(child):
+        c = (x + 1) + 64 * c
+    return c
+def mut_hist_of(inp, obs):
+    return [(tuple(c), k) for c, k in obs[1]] if isinstance(obs, list) and len(obs) == 2 and obs[0] == 0 else []
+def mut_describe(inp, obs):
+    p = inp[2]
+    return '%s %s, %d seeded draws (seed %d); observed [0, [[child, count]..]]' % (MUT_KINDS.get(p[0]), p[1:], inp[1], inp[0])
+_MUT_COMMON = dict(corr='CorrMut', describe=mut_describe, no_shrink=True, classify=lambda i, o: MUT_KINDS.get(i[2][0], '?'),
+                   bucket=lambda i, o: ['op=%s' % MUT_KINDS.get(i[2][0], '?')])
+PROPS['C11'] = dict(_MUT_COMMON, judge='(judge_cases judge_c11)',
+    coq_targets=['theories/Props/C11.vo', 'theories/Corr/CorrMut.vo'],
+    nontrivial=lambda i, o: True,
+    rule='Vec<bool>, Bitstring, Vec<i64> (bitwise-not genes), Vector<i64> with position-tagged genes and a disjoint new-gene alphabet, and Plushy genomes (tagged PushInt genes, new genes from a gene generator incl. close markers), lengths 0..12; flip rates {0, 1/4, 1/2, 1, 3/16, 15/16} and 1/len; UMAD addition/deletion rates incl. 0 and 1 and all three empty-genome modes; 1500 (quick) / 20000 (thorough) seeded draws per configuration. EVERY distinct child observed is judged in coqc by the shape predicate (length and per-position flip-or-keep; the UMAD language by a backtracking matcher; rate 0 = identity, flip rate >= 1 = all flipped, deletion 1 = empty, addition 1 / deletion 0 = exactly one new gene after every parent gene; empty parent: at most one new gene, none when disabled).',
+    trusted=['rand primitives (random::<f32>, random_bool) as oracles: only their support matters here'],
+    assumptions=['rates in [0,1] (the property quantifier); f32 rate granularity 2^-24'],
+    level_text='Theorems (Props/C11.v) at support level in the distribution monad: a bit-flip child has the parent length and each gene is kept or negated; rate 0 is the identity and rate 1 flips everything (as equalities of event probabilities); every UMAD child lies in the language "per parent gene in order: optionally that gene, then optionally one gene from the generator"; an empty parent yields at most one new gene, none when disabled; deletion rate 1 yields the empty genome; addition 1 / deletion 0 keeps every gene followed by exactly one new gene. Tied to the code by evaluating the shape predicates in coqc on every child the real operators produced.',
+    level_note='Trusted: Coq kernel; harness+driver; rand primitives as oracles.',
+    technique='Coq support-level theorems in a finite-distribution monad + shape predicates evaluated in coqc on every observed child',
+    design_ref='DESIGN.md §7 C11')
+PROPS['C12'] = dict(_MUT_COMMON, judge='(judge_cases judge_c12)', post_batch=make_stat_post('C12', mut_code, mut_hist_of), cov_extra=stat_cov_extra,
+    coq_targets=['theories/Props/C12.vo', 'theories/Corr/CorrMut.vo'],
+    nontrivial=lambda i, o: True,
+    rule='FULL child distributions (every possible child is a cell): bit-flip at rates {1/16, 1/4, 1/2, 7/8} and 1/len for lengths 1..8 (Vec<bool> and Bitstring alternating); UMAD at (a,d) in {(1/8,1/8), (1/4,1/5), (1/2,1/4), (1,0), (0,1), (1/2,1/3)} on 0..3 tagged genes with a 2-gene alphabet and all empty-genome modes; uniform crossover for lengths 1..6; random bitstrings with p in {0, 1/8, 1/2, 7/8, 1}; Plushy gene generators over 1,2,3,5 instructions with the default (1/(n+1)) and explicit close probabilities. 20000 (quick) / 400000 (thorough) seeded draws per configuration, compared cell by cell with the law computed from the model in coqc (independence and the new-genes-are-deleted-too clause are consequences of the joint law).',
+    trusted=['rand primitives as oracles', 'statistical tie: Bernstein threshold with delta = 1e-12 per cell, one 10x re-sample before a cell counts; zero-probability children are an exact violation'],
+    assumptions=['all rates are dyadic-representable or small rationals; f32/f64 granularity of the rates is far below the test resolution'],
+    level_text='Theorems (Props/C12.v) in Q: the bit-flip child distribution is the product law r^h (1-r)^(n-h) (hence independent flips), r n expected flips and exactly one for the 1/length variant; UMAD expected child size n (1-d)(1+a) - new genes being deletable too - and size neutrality at d = a/(1+a); uniform crossover masks are uniform (each position 1/2, independently); random bitstrings follow the product Bernoulli law; a random Plushy gene is a close marker with probability c and otherwise drawn from the instruction distribution, and with the default c = 1/(n+1) all n+1 outcomes are equally likely. Tied to the code by comparing full empirical child distributions with the model law.',
+    level_note='Trusted: Coq kernel; harness+driver; rand primitives as oracles; explicit statistical error budget.',
+    technique='Coq exact-law theorems over Q (product laws, expectations) + statistical comparison of full child distributions with the model law',
+    design_ref='DESIGN.md §7 C12')
+
+# ---------------------------------------------------------------------------
+# C18
+C18_FL = ['Vec into->T', '&Vec into->&T', '&Vec into->T', 'Vec to->T', 'Vec to->&T', '[T;N] into->T', '&[T;N] into->&T', '&[T;N] into->T', '[T;N] to->T', '[T;N] to->&T',
+          '&[T] into->&T', '&[T] into->T', '[T] to->&T', '[T] to->T', 'uniform_distribution_of!']
+C18_K = ['Vec collection', 'Bitstring::random', 'Bitstring::random_with_probability', 'Plushy collection', 'population of scored individuals']
+def c18_describe(inp, obs):
+    p = inp[2]
+    if p[0] == 5:
+        return 'uniform choice, flavour %s, source %s, %d draws; observed [num_choices, [[value, count]..]] or [-7]=EmptySlice' % (C18_FL[p[1]], p[2], inp[1])
+    return '%s of size %d, %d draws; observed [[length, elements ok, count]..]' % (C18_K[p[0]], p[1], inp[1])
+def c18_hist_of(inp, obs):
+    return [(v, k) for v, k in obs[1]] if isinstance(obs, list) and len(obs) == 2 and isinstance(obs[1], list) else []
+PROPS['C18'] = dict(
+    corr='CorrC18', judge='(judge_cases judge)', post_batch=make_stat_post('C18', lambda inp, oc: oc, c18_hist_of), cov_extra=stat_cov_extra,
+    coq_targets=['theories/Props/C18.vo', 'theories/Corr/CorrC18.vo'],
+    describe=c18_describe, no_shrink=True, nontrivial=lambda i, o: True,
+    classify=lambda i, o: ('choice:%s' % C18_FL[i[2][1]]) if i[2][0] == 5 else ('collection:%s' % C18_K[i[2][0]]),
+    bucket=lambda i, o: [('flavour=%s' % C18_FL[i[2][1]]) if i[2][0] == 5 else ('collection=%s' % C18_K[i[2][0]]), 'size=%d' % (len(i[2][2]) if i[2][0] == 5 else i[2][1])],
+    rule='collection generators for Vec, Bitstring (both constructors), Plushy and a population of scored individuals at sizes 0, 1, 2, 17 and 1000 (length of every sample and membership of every element compared exactly); uniform choices built through all 15 conversion flavours (Vec / array / slice, owning / borrowing / cloning, IntoDistribution / ToDistribution, and the uniform_distribution_of! macro) from empty sources (EmptySlice expected) and from sources of 1..6 members incl. duplicates: num_choices compared exactly, members exactly (zero-probability values are violations), frequencies against 1/len per index.',
+    trusted=['rand Uniform / slice::Choose as oracles', 'statistical tie with delta = 1e-12 per cell'],
+    assumptions=[],
+    level_text='Theorems (Props/C18.v): a collection generator yields exactly n elements each drawn from the element generator (and is total); a uniform choice returns only indices of the source, each with probability exactly 1/length (duplicates handled by index), and an empty source is rejected at construction. Tied to the code by exact length / membership / num_choices checks for every conversion flavour and by seeded frequencies.',
+    level_note='Trusted: Coq kernel; harness+driver; rand primitives as oracles.',
+    technique='Coq theorems over the distribution monad (collection length/membership, uniform-by-index) + exact and statistical correspondence over all conversion flavours',
+    design_ref='DESIGN.md §6 C18')
